@@ -130,22 +130,24 @@ fn compare_with_twin(
 
 fn malformed(f: &Family, st: &mut Stats, tier: Tier) {
     // all sequences over {0..n} of length 0..n+1 (n = number of ids on that side)
-    let n = f.base.nl;
-    let mut alphabet: Vec<u16> = (0..=n as u16).collect();
-    if tier == Tier::Thorough {
-        alphabet.push(u16::MAX);
-    }
-    let seqs: Vec<Vec<u16>> = all_seqs(alphabet.len(), n + 1)
-        .into_iter()
-        .map(|s| s.into_iter().map(|i| alphabet[i]).collect())
-        .collect();
-    let valid_other: Vec<u16> = (1..f.base.nr as u16).collect();
+    let valid_left: Vec<u16> = (1..f.base.nl as u16).collect();
+    let valid_right: Vec<u16> = (1..f.base.nr as u16).collect();
+    let seqs_for = |n: usize| -> Vec<Vec<u16>> {
+        let mut alphabet: Vec<u16> = (0..=n as u16).collect();
+        if tier == Tier::Thorough {
+            alphabet.push(u16::MAX);
+        }
+        // all sequences up to length n + 1 (capped at 5 for the larger side of non-square spaces)
+        all_seqs(alphabet.len(), (n + 1).min(5)).into_iter().map(|s| s.into_iter().map(|i| alphabet[i]).collect()).collect()
+    };
+    let seqs_left = seqs_for(f.base.nl);
+    let seqs_right = seqs_for(f.base.nr);
     // contexts: fresh; after a valid map; with user lexicon
     let contexts: Vec<Vec<Op>> = vec![vec![], vec![Op::Map(0)], vec![Op::LoadUser(0)]];
     let tasks: Vec<(usize, bool)> = (0..contexts.len()).flat_map(|c| [(c, false), (c, true)]).collect();
     let res = par_explore(tasks.len(), |ti, st| {
         let (ci, right_side) = tasks[ti];
-        for m in &seqs {
+        for m in if right_side { &seqs_right } else { &seqs_left } {
             st.states += 1;
             st.transitions += 1;
             let d = match exec_history(f, &contexts[ci]) {
@@ -157,7 +159,7 @@ fn malformed(f: &Family, st: &mut Stats, tier: Tier) {
             };
             let n_side = if right_side { f.base.nr } else { f.base.nl };
             let expect_ok = valid_mapping(m, n_side);
-            let (l, r) = if right_side { (valid_other.clone(), m.clone()) } else { (m.clone(), valid_other.clone()) };
+            let (l, r) = if right_side { (valid_left.clone(), m.clone()) } else { (m.clone(), valid_right.clone()) };
             let res = guard(move || d.map_connection_ids_from_iter(l, r));
             let class = match &res {
                 Err(p) => format!("Panic@{}", panic_site(p)),
